@@ -40,7 +40,8 @@ func c13(env *core.Env) {
 	// siblings outside the prefix, some sharing a textual prefix with it
 	blob := []byte("sibling")
 	bdesc := ociregistry.Descriptor{Digest: reg.Sha256(blob), Size: int64(len(blob)), MediaType: "application/octet-stream"}
-	siblings := []string{prefix + "x/a", prefix + "2", "pre2/a", "prefix/a", "x", "a", "zz/b", strings.Split(prefix, "/")[0]}
+	// siblings: sharing a textual prefix, and sorting between "<prefix>" and "<prefix>/" ('-' and '.' sort before '/')
+	siblings := []string{prefix + "x/a", prefix + "2", "pre2/a", "prefix/a", "x", "a", "zz/b", strings.Split(prefix, "/")[0], prefix + "-bar/x", prefix + ".d/y", prefix + "-1"}
 	var outside []string
 	for _, s := range siblings {
 		if c.Bool("sibling", 2, 3) && !strings.HasPrefix(s, prefix+"/") {
